@@ -1096,5 +1096,58 @@ class FuzzTotality(Suite):
         return Info(n4 > 0 or len(headers) > 1, ['hdr:' + h[0] for h in headers] + (['some_accessor_answers_4xx'] if n4 else []))
 
 
-SUITES = [ContentLength(), Range(), Dates(), ETags(), RepeatedLines(), Cookies(), ForwardedSuite(), HostUrl(), Accept(), RoundTrip(), FuzzTotality()]
+# ======================================================================== many headers, long values
+
+
+def _case_variant(name, how):
+    return {0: name, 1: name.lower(), 2: name.upper(), 3: name.title(), 4: name.swapcase()}[how]
+
+
+class ManyHeaders(Suite):
+    """Requests with MANY header lines (1-200 distinct names, beyond any per-process cache of names a request class
+    keeps) and LONG values (up to 20000 characters): every header is found under every letter-casing of its name on both
+    stacks, with the value exactly as sent, headers / headers_lower list every one of them exactly once, and names that
+    were not sent are absent.  Reference: the list that was sent."""
+
+    name = 'many_headers'
+    budget = {'quick': 300, 'thorough': 6000}
+
+    def strategy(self, tier):
+        n = st.one_of(st.integers(1, 12), st.integers(60, 70), st.integers(13, 200))
+        long_len = st.sampled_from([0, 0, 255, 256, 4095, 4096, 8191, 8192, 8193, 20000])
+        return st.builds(lambda n, salt, how, ln, absent: {'n': n, 'salt': salt, 'how': how, 'long': ln, 'absent': absent},
+                         n, st.integers(0, 10 ** 6), st.lists(st.integers(0, 4), min_size=3, max_size=3), long_len,
+                         st.integers(0, 10 ** 6))
+
+    def run(self, case):
+        n, salt = case['n'], case['salt']
+        names = ['X-H%d-%s' % (i, 'abcdefghij'[(salt + i) % 10] * (1 + (salt + i) % 3)) for i in range(n)]
+        sent_names = [_case_variant(nm, (salt + i) % 5) for i, nm in enumerate(names)]
+        values = ['v%d-%d' % (i, salt % 997) for i in range(n)]
+        if case['long']:
+            values[salt % n] = ('abcdefghijklmnopqrstuvwxyz0123456789, ;=' * (case['long'] // 40 + 1))[:case['long']].strip()
+        headers = list(zip(sent_names, values))
+        absent = 'X-H%d-absent' % (case['absent'] % (n + 5))
+        expect_lower = {nm.lower(): v for nm, v in zip(names, values)}
+        for p in make_probes(headers):
+            req = p.req
+            for i, nm in enumerate(names):
+                for how in case['how']:
+                    lookup = _case_variant(nm, (how + i) % 5)
+                    p.expect('get_header(%r)' % lookup, lambda lookup=lookup: req.get_header(lookup), values[i])
+            p.expect('get_header(%r)' % absent, lambda: req.get_header(absent), None)
+            p.expect('get_header(%r, default=)' % absent, lambda: req.get_header(absent, default='d'), 'd')
+            for attr in ('headers', 'headers_lower'):
+                r = p.read(attr, lambda attr=attr: {k: v for k, v in getattr(req, attr).items()})
+                got = [(k, v) for k, v in r[1].items() if k.lower().startswith('x-h')] if r[0] == 'ok' else None
+                if got is None or len(got) != n or {k.lower(): v for k, v in got} != expect_lower \
+                        or (attr == 'headers_lower' and any(k != k.lower() for k, _v in got)):
+                    raise Violation('wrong_value', '%s = %r..., expected the %d headers sent %r...'
+                                    % (p._where(attr), str(got)[:300], n, headers[:3]))
+        return Info(n > 1 or bool(case['long']), ['n:%s' % ('1' if n == 1 else '2-12' if n <= 12 else '13-64' if n <= 64 else '65+'),
+                                                    'long:%d' % case['long']])
+
+
+
+SUITES = [ContentLength(), Range(), Dates(), ETags(), RepeatedLines(), Cookies(), ForwardedSuite(), HostUrl(), Accept(), RoundTrip(), ManyHeaders(), FuzzTotality()]
 KNOWN = {}
